@@ -56,6 +56,12 @@ func PsMap(videoType, audioType uint8) []byte {
 // PsPes builds PES packets for one access unit; the payload is split so that PES_packet_length
 // fits 16 bits (maxPayload ≤ 65535−13). Only the first PES carries PTS/DTS.
 func PsPes(streamID byte, pts, dts uint64, withDts bool, data []byte, maxPayload int) []byte {
+	return PsPesStuffed(streamID, pts, dts, withDts, data, maxPayload, 0)
+}
+
+// PsPesStuffed is PsPes with `stuff` stuffing bytes (0xFF) at the end of every PES header: PES_header_data_length
+// counts them on top of the PTS/DTS fields (ISO 13818-1 2.4.3.7 allows up to 32); the payload starts after them.
+func PsPesStuffed(streamID byte, pts, dts uint64, withDts bool, data []byte, maxPayload int, stuff int) []byte {
 	var out []byte
 	first := true
 	for first || len(data) > 0 {
@@ -66,12 +72,15 @@ func PsPes(streamID byte, pts, dts uint64, withDts bool, data []byte, maxPayload
 		var hdr []byte
 		if first {
 			if withDts {
-				hdr = append([]byte{0x80, 0xC0, 10}, append(psTs33(3, pts), psTs33(1, dts)...)...)
+				hdr = append([]byte{0x80, 0xC0, byte(10 + stuff)}, append(psTs33(3, pts), psTs33(1, dts)...)...)
 			} else {
-				hdr = append([]byte{0x80, 0x80, 5}, psTs33(2, pts)...)
+				hdr = append([]byte{0x80, 0x80, byte(5 + stuff)}, psTs33(2, pts)...)
 			}
 		} else {
-			hdr = []byte{0x80, 0x00, 0}
+			hdr = []byte{0x80, 0x00, byte(stuff)}
+		}
+		for k := 0; k < stuff; k++ {
+			hdr = append(hdr, 0xFF)
 		}
 		l := len(hdr) + n
 		out = append(out, 0, 0, 1, streamID, byte(l>>8), byte(l))
